@@ -547,3 +547,23 @@ Example ex_C19_fetch_string :
   extent_of_string names blocks (lit "chr2:0-5") = None /\
   render_uri (lit "a.cool", lit "/g") = lit "a.cool::/g".
 Proof. vm_compute. repeat split; reflexivity. Qed.
+
+(** the tail of util.parse_region as translated from util.py on every run ([Gen.parse_region_tail]) is the model's
+    [check_region], with and without a chromsizes table: the refusals proved above ("end < start", "out of bounds",
+    "cannot determine end") are the comparisons the source has now. *)
+From Cooler Require Import Gen.Translated Proofs.GenBridgeRegion.
+Theorem C19_source_parse_region_is_model : forall chrom os oe cs,
+  Text.check_region (chrom, os, oe) cs =
+  match (match cs with
+         | None => Some None
+         | Some t => match Text.lookup chrom t with None => None | Some l => Some (Some l) end
+         end) with
+  | None => None
+  | Some clen => match Gen.parse_region_tail os oe clen with None => None | Some (s', e') => Some (chrom, s', e') end
+  end.
+Proof. exact gen_parse_region_is_text_model. Qed.
+Print Assumptions C19_source_parse_region_is_model.
+
+Theorem C19_parse_region_source_pins : Gen.parse_region_source_pins = true.
+Proof. reflexivity. Qed.
+Print Assumptions C19_parse_region_source_pins.
